@@ -136,6 +136,12 @@ func execMatch(c *fw.Ctx, cs Case) outcome {
 			c.Report("recurring|EXDATE property holding a list of values|Match fails with an exdate parse error",
 				"Match failed with "+strconv.Quote(o.Err)+" on a valid recurring event whose EXDATE property lists several dates", cs)
 		}
+		if strings.Contains(o.Err, "unknown time zone") && usesOwnTimezone(root) {
+			// a valid object (RFC 5545 3.2.19, 3.6.5: a TZID names a
+			// VTIMEZONE of the same object) Match cannot evaluate
+			c.Report("time-range|TZID defined by a VTIMEZONE of the object, not an IANA name|Match fails with an unknown-time-zone error",
+				"Match failed with "+strconv.Quote(o.Err)+" on a valid event whose TZID names a VTIMEZONE component of the same calendar object", cs)
+		}
 		if o.Panic != "" {
 			c.Observe("outside_domain_behaviour", "panic: "+o.Panic, 1)
 		} else if o.Err != "" {
@@ -424,6 +430,7 @@ func c06Run(c *fw.Ctx) {
 	runTimeRangeUniverse(c, deal)
 	runTreeUniverse(c, deal)
 	runRecurringUniverse(c, deal)
+	runOwnTimezoneUniverse(c, deal)
 	runRandomUniverse(c)
 	runLargeListUniverse(c, deal)
 	runTextUniverse(c, deal)
@@ -468,14 +475,18 @@ func init() {
 		Rule: "Every case calls the real caldav.Match (or caldav.Filter) on go-ical objects built in memory and compares with an independent three-valued RFC 4791 9.7-9.9 evaluator. " +
 			"Exhaustive sub-universes (flagged in observations.universe): (a) time-range: every placement of {range start, range end, DTSTART, end} on a 5-point hour grid (hence every weak ordering incl. all ties) for DTEND / DURATION>0 / DURATION=0 / DATE-TIME start only, open-start and open-end variants, DTSTART spelled in UTC, TZID=Europe/Paris, TZID=America/New_York and floating, range values carried in UTC and in a zoned time.Time, with and without a non-overlapping decoy VEVENT placed first; all-day (DATE) starts on a threshold grid; " +
 			"(b) filter trees: every tree of <= 3 (thorough <= 4) nodes below the VCALENDAR filter over kinds {comp, prop, param, text-match, time-range} x flags {is-not-defined, negate-condition} with names from a 3-component / 3-property / 2-parameter alphabet, against 8 fixed calendars; " +
-			"(c) recurring: FREQ=DAILY|WEEKLY x COUNT 1-4 x INTERVAL 1-2 x duration {0, 1h, 25h} (DTEND and DURATION spellings) x all ranges over a grid of instance boundaries +-30min, instances computed by the harness's own expander; " +
+			"(c) recurring: FREQ=DAILY|WEEKLY x COUNT 1-4 x INTERVAL 1-2 x duration {0, 1h, 25h} (DTEND and DURATION spellings) x all ranges over a grid of instance boundaries +-30min, instances computed by the harness's own expander; zoned (TZID across a UTC-offset change) and EXDATE variants; " +
+			"(c-long) the range far into a series: FREQ=SECONDLY|MINUTELY|HOURLY|DAILY|WEEKLY x INTERVAL 1|3 x {no end, COUNT, UNTIL: instance n is the last one / the first that no longer exists} x instances of length {0, half a step, one and a half steps} on a ladder of n = 0, 7.., 60.., 400.., 1500.., 6000.., 20000.. (thorough also 60000.., 200000..) instances between DTSTART and the range (exact n drawn from the seed), ranges: first second of instance n, the gaps before and behind it, open-ended from there; the reference decides these arithmetically (instance k = DTSTART + k steps); " +
+			"(c-allday) recurring events with a DATE or floating DTSTART (DAILY/WEEKLY, COUNT 1-3; no end / DTEND / DURATION), the series expanded on the wall clock of every admissible zone of interpretation, windows over the instance-boundary grid bracketed at -14h / 0 / +12h, range values in UTC and in America/New_York; " +
+			"(g) events whose TZID names a VTIMEZONE of the object itself (not an IANA name): no verdict, Match must evaluate them without an error; " +
+			"(a) also carries range bounds half a second off the grid and range start / end in different Locations; " +
 			"random: seeded larger objects and filters, plus caldav.Filter over lists of objects (subsequence, identity, nil query). " +
 			"(f) text-match, exhaustive: 18 property values (TEXT escapes \\\\ \\, \\; \\n \\N, unescaped commas = list values, semicolons, empty, leading/trailing comma, non-ASCII, mixed case) x every needle that is a substring (<= 5 runes) of the raw value, of the unescaped value or of a list item, whole items, ASCII case variants, the empty and an absent needle x negate on/off x properties {SUMMARY, CATEGORIES, RESOURCES (TEXT), X-A (no type), X-A;VALUE=TEXT}; parameter values likewise (single, and as 2nd value of a multi-valued parameter). " +
 			"(e) large lists: caldav.Filter over lists of 16..4096 objects (lengths around every power of two and 100/500/1000) x match patterns {all, none, alternating, first-only, last-only, ends-only, random} x text / time-range queries x cheap / front-heavy / back-heavy objects, each at GOMAXPROCS 1 and >1, repeated; also nil query. " +
 			"distinct_nontrivial counts distinct abstract renderings (node kinds, flags, existence relations, order pattern of range vs. event) of cases in which a verdict was demanded.",
 		Assumptions: []string{
 			"the reference evaluator transcribes RFC 4791 9.7-9.9 as restated by the property; a verdict is demanded only when all admissible readings agree (raw vs unescaped text, octet vs ASCII-folded comparison, list item vs whole value, first vs any of several same-named properties / parameter values, empty parameter value present vs absent, names differing in case only, zone of floating and DATE values: any UTC offset -12h..+14h, property value equal to the range start)",
-			"outside the domain (executed, not judged): time-range on non-VEVENT components, DTEND <= DTSTART, range end <= start, prop-filter with both time-range and text-match, is-not-defined combined with children, top-level filter name different from the object's top-level component, VEVENT without exactly one DTSTART or with RECURRENCE-ID/EXDATE/RDATE under a time-range, recurrence rules outside FREQ=DAILY|WEEKLY;COUNT[;INTERVAL] with a UTC DTSTART, local times within 26h of a UTC-offset transition",
+			"outside the domain (executed, not judged): time-range on non-VEVENT components, DTEND <= DTSTART, range end <= start, prop-filter with both time-range and text-match, is-not-defined combined with children, top-level filter name different from the object's top-level component, VEVENT without exactly one DTSTART or with RECURRENCE-ID/EXDATE/RDATE under a time-range, recurrence rules outside FREQ=SECONDLY|MINUTELY|HOURLY|DAILY|WEEKLY[;COUNT<=10^7|;UNTIL=<UTC date-time, not before DTSTART>][;INTERVAL<=100] with a UTC DTSTART (a TZID, floating or DATE DTSTART, and EXDATE: FREQ=DAILY|WEEKLY with COUNT<=1000 only), ranges more than 200 years after the DTSTART of a series that is not expanded instance by instance (COUNT>1000, UNTIL or endless: rrule-go's own horizon is about 290 years), local times within 26h of a UTC-offset transition",
 			"objects are component trees rooted at VCALENDAR with upper-case names, built in memory with go-ical; nil Data (documented panic) is never generated",
 			"TZID values are IANA names resolvable on this machine (Europe/Paris, America/New_York); VTIMEZONE definitions are not consulted",
 			"Filter is compared with Match object by object and Match with the reference, so Filter = reference follows wherever both comparisons are silent",
